@@ -190,18 +190,23 @@ class TwoLayerGas(Gas):
                                     np.log(Pnodes[::-1]),
                                     np.log10(Cnodes[::-1]))
 
-        wsize = nlayers * (smooth_window / 100.0)
+        # Smoothing window in layers: a whole, odd number of layers so that
+        # the moving average is centred and leaves the same number of
+        # unsmoothed layers (border) at both ends.
+        wsize = int(nlayers * (smooth_window / 100.0))
 
         if (wsize % 2 == 0):
             wsize += 1
 
-        C_smooth = 10**movingaverage(np.log10(chemprofile), int(wsize))
-
-        border = int((len(chemprofile) - len(C_smooth)) / 2)
+        border = (wsize - 1) // 2
 
         self._mix_profile = chemprofile[::-1]
 
-        self._mix_profile[border:-border] = C_smooth[::-1]
+        # A window of one layer (few layers and/or small smoothing) or one
+        # that does not fit into the atmosphere leaves the profile unsmoothed
+        if border > 0 and wsize <= nlayers:
+            C_smooth = 10**movingaverage(np.log10(chemprofile), wsize)
+            self._mix_profile[border:-border] = C_smooth[::-1]
 
     def write(self, output):
         gas_entry = super().write(output)
